@@ -172,7 +172,45 @@ def sub_history(case):
                     _cmp("mktrend() after the history %s pixel %d" % ([o[0] for o in case["ops"]], i), got, want, row.tolist(), dtype)
 
 
-SUBS = {"definition": sub_definition, "invariance": sub_invariance, "nodata": sub_nodata, "history": sub_history}
+def critical_series(n, above, neg):
+    """Tie-free permutation of 0..n-1 whose S is the smallest (above) / largest (not above) value of the right parity with
+    continuity-corrected Z just beyond / just inside the two-sided 5% critical value; negated when neg."""
+    from scipy.special import ndtri
+    import math
+    zc = float(ndtri(0.975))
+    big = n * (n - 1) // 2
+    sd = math.sqrt(n * (n - 1) * (2 * n + 5) / 18)
+    s = int(math.floor(zc * sd + 1))
+    while (s - 1) / sd <= zc:
+        s += 1
+    if (big - s) % 2:
+        s += 1
+    if not above:
+        s -= 2
+    if s > big or s < 0:
+        return None
+    inv = (big - s) // 2
+    k = 0
+    while (k + 1) * k // 2 <= inv:
+        k += 1
+    x = list(range(k - 1, -1, -1)) + list(range(k, n))
+    r = inv - k * (k - 1) // 2
+    if r:
+        v = x.pop(k)
+        x.insert(k - r, v)
+    if neg:
+        x = [-v for v in x]
+    return x
+
+
+def sub_critical(case):
+    x = critical_series(case["n"], case["above"], case["neg"])
+    req(x is not None, "no critical series for n=%d" % case["n"], "critical generator")
+    a, b = case.get("a", 1), case.get("b", 0)
+    sub_definition({"x": [float(a * v + b) for v in x], "dtype": case["dtype"], "path": case["path"]})
+
+
+SUBS = {"critical": sub_critical, "definition": sub_definition, "invariance": sub_invariance, "nodata": sub_nodata, "history": sub_history}
 
 
 def weak_orderings(n):
@@ -240,6 +278,21 @@ def run(ctx):
 
     paths = st.sampled_from(["gu", "gu_nd", "1d", "yxt", "accessor", "accessor_nd"])
     ctx.given("definition", st.builds(lambda c, p: dict(c, path=p), series(ctx.n(80, 200)), paths), ctx.n(500, 6000), fn=f_def)
+
+    # significance threshold: for every length the two tie-free series whose Z straddles the 5% critical value most tightly
+    paths_c = ["gu", "gu_nd", "1d", "yxt", "accessor", "accessor_nd"]
+    k = 0
+    for n in range(8, ctx.n(200, 400) + 1):
+        for above in (True, False):
+            for neg in (False, True):
+                k += 1
+                case = {"n": n, "above": above, "neg": neg, "dtype": ["int16", "float32"][k % 2], "path": paths_c[k % 6],
+                        "a": [1, 3, 7][k % 3], "b": [0, -5000, 1234][k % 3]}
+                if critical_series(n, above, neg) is None:
+                    continue
+                rec.case("critical", case, nontrivial=True, cls=["above" if above else "inside", "neg" if neg else "pos"])
+                if not ctx.run_case("critical", case):
+                    return
 
     def f_inv(case):
         rec.case("invariance", case, nontrivial=len(set(case["x"])) > 1, cls=["dtype:" + case["dtype"], "kind:" + case["kind"]])
